@@ -76,9 +76,13 @@ pub fn main(args: &[String]) -> i32 {
             let seed = util::opt_u64(&args[1..], "--seed", 1);
             let n = util::opt_u64(&args[1..], "--n", 1000);
             let mut out = Out::new();
-            for src in memgen::random_programs(seed, n) {
+            let (programs, shapes) = memgen::random_programs_with_shapes(seed, n);
+            for src in programs {
                 out.line(&format!("d {}", util::hex(src.as_bytes())));
             }
+            // distribution of the temporary-receiver shapes (read by checks/c02.py)
+            let shapes: Vec<String> = shapes.iter().map(|(k, v)| format!("{k}={v}")).collect();
+            eprintln!("GEN-STAT programs={n} {}", shapes.join(" "));
             0
         }
         Some("product") => {
@@ -197,8 +201,20 @@ fn worker() -> i32 {
     let devnull = unsafe { libc::open(c"/dev/null".as_ptr(), libc::O_WRONLY) };
     unsafe { libc::dup2(devnull, 1) };
     let mut out = unsafe { <std::fs::File as std::os::fd::FromRawFd>::from_raw_fd(saved) };
-    let stdin = std::io::stdin();
-    for line in stdin.lock().lines() {
+    // A program may run a child process (`command(..).run()`) or read a line: with an inherited stdin
+    // that would be the request pipe (a child `cat` swallows the requests and everything hangs). The
+    // requests are read from a private duplicate of fd 0 and fd 0 becomes /dev/null; neither private
+    // descriptor is inherited by a child.
+    let req_fd = unsafe { libc::dup(0) };
+    let null_in = unsafe { libc::open(c"/dev/null".as_ptr(), libc::O_RDONLY) };
+    unsafe {
+        libc::fcntl(req_fd, libc::F_SETFD, libc::FD_CLOEXEC);
+        libc::fcntl(saved, libc::F_SETFD, libc::FD_CLOEXEC);
+        libc::dup2(null_in, 0);
+        libc::close(null_in);
+    }
+    let requests = BufReader::new(unsafe { <std::fs::File as std::os::fd::FromRawFd>::from_raw_fd(req_fd) });
+    for line in requests.lines() {
         let Ok(line) = line else { break };
         // watchdog: a run that reads recycled memory may loop forever; SIGALRM ends the worker, the
         // parent sees EOF and reports `abort` for the request in flight
